@@ -96,6 +96,36 @@ func (c *Ctx) memPeek(st *State, name string) Term {
 	return c.epochMem(st.epoch, name)
 }
 
+type baseArr struct {
+	arr   Term
+	bound int
+}
+
+// groundHeap instantiates the heap well-formedness axioms at one address
+// (what E-matching on the quantified axioms would produce for a load).
+func (c *Ctx) groundHeap(name string, addr Term, valSort string) {
+	if c.inQuant > 0 {
+		c.needQuantHeap = true
+		return
+	}
+	for _, b := range c.baseArrays[name] {
+		key := "gh|" + b.arr.S + "|" + addr.S
+		if c.assumed[key] {
+			continue
+		}
+		c.assumed[key] = true
+		sel := Select(b.arr, addr)
+		if z, ok := c.zeroOfSort(valSort); ok {
+			c.assumes = append(c.assumes, Assume{declPos: len(c.decls), groundAx: true, why: "unallocated cells are zero (instance)",
+				t: Implies(ILe(IntLitI(int64(b.bound)), RefRoot(addr)), Eq(sel, z))})
+		}
+		if valSort == SRef {
+			c.assumes = append(c.assumes, Assume{declPos: len(c.decls), groundAx: true, why: "stored references are allocated (instance)",
+				t: And(ILt(RefRoot(sel), IntLitI(int64(b.bound))), ILe(IntLitI(0), RefRoot(sel)))})
+		}
+	}
+}
+
 type epochInfo struct {
 	bound int
 	parts []epochPart // merge epoch
@@ -145,6 +175,21 @@ func (c *Ctx) epochMem(e int, name string) Term {
 // memAxioms: cells of not-yet-allocated objects are zero; stored references
 // point to already-allocated objects.
 func (c *Ctx) memAxioms(m Term, valSort string, bound int, name string) {
+	c.baseArrays[name] = append(c.baseArrays[name], baseArr{m, bound})
+	if strings.HasPrefix(name, "E_") {
+		_, es := arrSorts(valSort) // valSort is (Array Idx s)
+		if z, ok := c.zeroOfSort(es); ok {
+			c.assumes = append(c.assumes, Assume{declPos: len(c.decls), heapAx: true, why: "unallocated elements are zero: " + name,
+				t: raw(fmt.Sprintf("(forall ((r Ref)) (! (=> (>= (rroot r) %d) (= (select %s r) ((as const %s) %s))) :pattern ((select %s r))))",
+					bound, m.S, valSort, z.S, m.S), SBool)})
+		}
+		if es == SRef {
+			c.assumes = append(c.assumes, Assume{declPos: len(c.decls), heapAx: true, why: "stored references are allocated: " + name,
+				t: raw(fmt.Sprintf("(forall ((r Ref) (i %s)) (! (and (< (rroot (select (select %s r) i)) %d) (>= (rroot (select (select %s r) i)) 0)) :pattern ((select (select %s r) i))))",
+					c.idxSort, m.S, bound, m.S, m.S), SBool)})
+		}
+		return
+	}
 	if z, ok := c.zeroOfSort(valSort); ok {
 		c.usesQuant = true
 		c.assumes = append(c.assumes, Assume{declPos: len(c.decls), heapAx: true, why: "unallocated cells are zero: " + name,
@@ -196,6 +241,147 @@ func (c *Ctx) cellLeaves(t types.Type) []leaf {
 
 func (c *Ctx) memName(t types.Type) string { return "M_" + typeKey(t) }
 
+// ---- leaf cell access ---------------------------------------------------------
+// Scalar cells live in two kinds of memory:
+//   M_T : Ref -> sort                 cells addressed by a full reference (fields, boxed values)
+//   E_T : Ref -> (Idx -> sort)        scalar elements of arrays/slices: array address, then index
+// Keeping element indices out of the Ref datatype leaves index reasoning to the
+// bit-vector/arithmetic solver alone.
+
+// splitElem recognises an element address elem(arr, idx).
+func (c *Ctx) splitElem(addr Term) (arr, idx Term, ok bool) {
+	t := addr
+	if st, has := c.refStruct[addr.S]; has {
+		t = st
+	}
+	root, path, isMk := splitRef(t)
+	if !isMk || !strings.HasPrefix(path.S, "(pelem ") {
+		return Term{}, Term{}, false
+	}
+	body := path.S[len("(pelem ") : len(path.S)-1]
+	depth := 0
+	for i, ch := range body {
+		switch ch {
+		case '(':
+			depth++
+		case ')':
+			depth--
+		case ' ':
+			if depth == 0 {
+				pp := body[:i]
+				// mkref(rroot X, rpath X) is X
+				if strings.HasPrefix(root.S, "(rroot ") && strings.HasPrefix(pp, "(rpath ") && root.S[7:] == pp[7:] {
+					return raw(root.S[7:len(root.S)-1], SRef), raw(body[i+1:], c.idxSort), true
+				}
+				return MkRef(root, raw(pp, SPath)), raw(body[i+1:], c.idxSort), true
+			}
+		}
+	}
+	return Term{}, Term{}, false
+}
+
+// isStructural: the address is syntactically not an element address.
+func (c *Ctx) isStructural(addr Term) bool {
+	t := addr
+	if st, has := c.refStruct[addr.S]; has {
+		t = st
+	}
+	_, path, isMk := splitRef(t)
+	return isMk && (path.S == "pnil" || strings.HasPrefix(path.S, "(psub "))
+}
+
+func (c *Ctx) elemSort(valSort string) string { return SArr(SRef, SArr(c.idxSort, valSort)) }
+
+func dynArr(addr Term) Term {
+	return raw(fmt.Sprintf("(mkref (rroot %s) (pelemp (rpath %s)))", addr.S, addr.S), SRef)
+}
+func (c *Ctx) dynIdx(addr Term) Term {
+	return raw(fmt.Sprintf("(pelemi (rpath %s))", addr.S), c.idxSort)
+}
+func isElemTerm(addr Term) Term {
+	return raw(fmt.Sprintf("((_ is pelem) (rpath %s))", addr.S), SBool)
+}
+
+// cellRead reads the leaf cell `name` (value sort vs) at addr.
+func (c *Ctx) cellRead(st *State, name, vs string, addr Term) Term {
+	if arr, idx, ok := c.splitElem(addr); ok {
+		return c.elemRead(st, name, vs, arr, idx)
+	}
+	flat := Select(c.memGet(st, name, vs), addr)
+	c.groundHeap(name, addr, vs)
+	if c.isStructural(addr) {
+		return flat
+	}
+	// unknown pointer: may address an array element
+	return Ite(isElemTerm(addr), c.elemRead(st, name, vs, dynArr(addr), c.dynIdx(addr)), flat)
+}
+
+func (c *Ctx) elemRead(st *State, name, vs string, arr, idx Term) Term {
+	en := "E" + name[1:]
+	m := c.elemGet(st, en, vs)
+	c.groundElem(en, arr, idx, vs)
+	return Select(Select(m, arr), idx)
+}
+
+func (c *Ctx) elemGet(st *State, en, vs string) Term {
+	if t, ok := st.mem[en]; ok {
+		return t
+	}
+	c.declareMem(en, c.elemSort(vs))
+	t := c.memPeek(st, en)
+	st.mem[en] = t
+	return t
+}
+
+func (c *Ctx) cellWrite(st *State, name, vs string, addr, v Term) {
+	if arr, idx, ok := c.splitElem(addr); ok {
+		c.elemWrite(st, name, vs, arr, idx, v)
+		return
+	}
+	if c.isStructural(addr) {
+		c.memSet(st, name, Store(c.memGet(st, name, vs), addr, v))
+		return
+	}
+	// unknown pointer: update whichever memory holds the cell
+	isE := isElemTerm(addr)
+	m := c.memGet(st, name, vs)
+	c.memSet(st, name, Ite(isE, m, Store(m, addr, v)))
+	en := "E" + name[1:]
+	e := c.elemGet(st, en, vs)
+	arr, idx := dynArr(addr), c.dynIdx(addr)
+	c.memSet(st, en, Ite(isE, Store(e, arr, Store(Select(e, arr), idx, v)), e))
+}
+
+func (c *Ctx) elemWrite(st *State, name, vs string, arr, idx, v Term) {
+	en := "E" + name[1:]
+	e := c.elemGet(st, en, vs)
+	c.memSet(st, en, Store(e, arr, Store(Select(e, arr), idx, v)))
+}
+
+// groundElem instantiates the heap axioms of an element memory at (arr, idx).
+func (c *Ctx) groundElem(en string, arr, idx Term, vs string) {
+	if c.inQuant > 0 {
+		c.needQuantHeap = true
+		return
+	}
+	for _, b := range c.baseArrays[en] {
+		key := "ge|" + b.arr.S + "|" + arr.S + "|" + idx.S
+		if c.assumed[key] {
+			continue
+		}
+		c.assumed[key] = true
+		sel := Select(Select(b.arr, arr), idx)
+		if z, ok := c.zeroOfSort(vs); ok {
+			c.assumes = append(c.assumes, Assume{declPos: len(c.decls), groundAx: true, why: "unallocated elements are zero (instance)",
+				t: Implies(ILe(IntLitI(int64(b.bound)), RefRoot(arr)), Eq(sel, z))})
+		}
+		if vs == SRef {
+			c.assumes = append(c.assumes, Assume{declPos: len(c.decls), groundAx: true, why: "stored references are allocated (instance)",
+				t: And(ILt(RefRoot(sel), IntLitI(int64(b.bound))), ILe(IntLitI(0), RefRoot(sel)))})
+		}
+	}
+}
+
 // load reads a value of Go type t at address addr.
 func (c *Ctx) load(st *State, addr Term, t types.Type) *Val {
 	switch u := t.Underlying().(type) {
@@ -216,27 +402,28 @@ func (c *Ctx) load(st *State, addr Term, t types.Type) *Val {
 		return v
 	case *types.Slice:
 		n := c.memName(t)
-		v := &Val{K: KSlice, Ty: t,
-			Base: Select(c.memGet(st, n+"#b", SRef), addr), Off: Select(c.memGet(st, n+"#o", c.idxSort), addr),
-			Len: Select(c.memGet(st, n+"#l", c.idxSort), addr), Cap: Select(c.memGet(st, n+"#c", c.idxSort), addr)}
+		v := &Val{K: KSlice, Ty: t, Base: c.cellRead(st, n+"#b", SRef, addr), Off: c.cellRead(st, n+"#o", c.idxSort, addr),
+			Len: c.cellRead(st, n+"#l", c.idxSort, addr), Cap: c.cellRead(st, n+"#c", c.idxSort, addr)}
 		v = c.defVal("ld", v)
 		z := c.idxLit(0)
 		lim := c.idxLit(1 << 48)
-		c.Assume(st.reach, And(c.idxLe(z, v.Off), c.idxLe(z, v.Len), c.idxLe(v.Len, v.Cap), c.idxLt(v.Cap, lim), c.idxLt(v.Off, lim),
-			Implies(Eq(v.Base, TNull), Eq(v.Cap, z))), "slice header in memory is well-formed")
+		if c.inQuant == 0 {
+			c.Assume(st.reach, And(c.idxLe(z, v.Off), c.idxLe(z, v.Len), c.idxLe(v.Len, v.Cap), c.idxLt(v.Cap, lim), c.idxLt(v.Off, lim),
+				Implies(Eq(v.Base, TNull), Eq(v.Cap, z))), "slice header in memory is well-formed")
+		}
 		return v
 	case *types.Interface:
 		n := c.memName(t)
-		return &Val{K: KIface, Ty: t, Tag: Select(c.memGet(st, n+"#tag", SInt), addr), Pay: Select(c.memGet(st, n+"#pay", SRef), addr)}
+		return &Val{K: KIface, Ty: t, Tag: c.cellRead(st, n+"#tag", SInt, addr), Pay: c.cellRead(st, n+"#pay", SRef, addr)}
 	case *types.Signature:
-		return scalar(Select(c.memGet(st, c.memName(t), SRef), addr), t)
+		return scalar(c.cellRead(st, c.memName(t), SRef, addr), t)
 	}
 	s := c.scalarSort(t)
 	if s == "" {
 		panic(unsupported("load of type %s", t))
 	}
-	v := scalar(Select(c.memGet(st, c.memName(t), s), addr), t)
-	if c.intMode {
+	v := scalar(c.cellRead(st, c.memName(t), s, addr), t)
+	if c.intMode && c.inQuant == 0 {
 		if w, signed, ok := intInfo(t); ok {
 			lo, hi := typeRange(w, signed)
 			c.Assume(st.reach, And(ILe(IntLit(lo), v.T), ILe(v.T, IntLit(hi))), "type range of loaded integer")
@@ -260,20 +447,20 @@ func (c *Ctx) store(st *State, addr Term, t types.Type, v *Val) {
 		return
 	case *types.Slice:
 		n := c.memName(t)
-		c.memSet(st, n+"#b", Store(c.memGet(st, n+"#b", SRef), addr, v.Base))
-		c.memSet(st, n+"#o", Store(c.memGet(st, n+"#o", c.idxSort), addr, v.Off))
-		c.memSet(st, n+"#l", Store(c.memGet(st, n+"#l", c.idxSort), addr, v.Len))
-		c.memSet(st, n+"#c", Store(c.memGet(st, n+"#c", c.idxSort), addr, v.Cap))
+		c.cellWrite(st, n+"#b", SRef, addr, v.Base)
+		c.cellWrite(st, n+"#o", c.idxSort, addr, v.Off)
+		c.cellWrite(st, n+"#l", c.idxSort, addr, v.Len)
+		c.cellWrite(st, n+"#c", c.idxSort, addr, v.Cap)
 		return
 	case *types.Interface:
 		n := c.memName(t)
-		c.memSet(st, n+"#tag", Store(c.memGet(st, n+"#tag", SInt), addr, v.Tag))
-		c.memSet(st, n+"#pay", Store(c.memGet(st, n+"#pay", SRef), addr, v.Pay))
+		c.cellWrite(st, n+"#tag", SInt, addr, v.Tag)
+		c.cellWrite(st, n+"#pay", SRef, addr, v.Pay)
 		return
 	case *types.Signature:
 		if v.K == KFunc {
 			c.note("function value stored to memory is abstracted to an opaque reference")
-			c.memSet(st, c.memName(t), Store(c.memGet(st, c.memName(t), SRef), addr, c.Fresh("fnref", SRef)))
+			c.cellWrite(st, c.memName(t), SRef, addr, c.Fresh("fnref", SRef))
 			return
 		}
 	}
@@ -281,7 +468,7 @@ func (c *Ctx) store(st *State, addr Term, t types.Type, v *Val) {
 	if s == "" {
 		panic(unsupported("store of type %s", t))
 	}
-	c.memSet(st, c.memName(t), Store(c.memGet(st, c.memName(t), s), addr, v.T))
+	c.cellWrite(st, c.memName(t), s, addr, v.T)
 }
 
 // mergeStates joins states arriving over several edges.
